@@ -1,0 +1,44 @@
+//go:build verif
+
+// Machine-checked contracts for package detector (comment-only file; see /verif/DESIGN.md).
+package detector
+
+//@ define hz(s: str) = val(fld(s, 0))
+//@ define xs(s: str) = val(fld(s, 1))
+//@ define ys(s: str) = val(fld(s, 2))
+//@ define vz(s: str) = val(fld(s, 3))
+//@ define fs(s: str) = val(fld(s, 4))
+//@ define zoomsok(s: str) = 0 <= hz(s) && hz(s) <= 35 && 0 <= vz(s) && vz(s) <= 35
+//@ define validext(s: str) = isext(s) && zoomsok(s) && 0 <= xs(s) && xs(s) < pow2(hz(s)) && 0 <= ys(s) && ys(s) < pow2(hz(s)) && 0 - pow2(vz(s)) <= fs(s) && fs(s) < pow2(vz(s))
+//@ -- two voxels share interior volume iff, on each axis, their ancestors at the coarser of the two zooms coincide
+//@ define ovrel(a: str, b: str) = anc(xs(a), hz(a) - min(hz(a), hz(b))) == anc(xs(b), hz(b) - min(hz(a), hz(b))) && anc(ys(a), hz(a) - min(hz(a), hz(b))) == anc(ys(b), hz(b) - min(hz(a), hz(b))) && anc(fs(a), vz(a) - min(vz(a), vz(b))) == anc(fs(b), vz(b) - min(vz(a), vz(b)))
+
+//@ func CheckExtendedSpatialIdsOverlap
+//@   props C05 C09 C15 C16
+//@   nooverflow
+//@   requires (isext(extendedSpatialId1) ==> zoomsok(extendedSpatialId1)) && (isext(extendedSpatialId2) ==> zoomsok(extendedSpatialId2))
+//@   ensures [malformed] !isext(extendedSpatialId1) || !isext(extendedSpatialId2) ==> r0 == false && r1 != nil
+//@   ensures [false-on-error] r1 != nil ==> r0 == false
+//@   ensures [exact] validext(extendedSpatialId1) && validext(extendedSpatialId2) ==> r1 == nil && (r0 <==> ovrel(extendedSpatialId1, extendedSpatialId2))
+//@ end
+
+//@ func CheckExtendedSpatialIdsArrayOverlap
+//@   props C05 C15 C16
+//@   nooverflow
+//@   requires forall k :: 0 <= k && k < len(extendedSpatialIds1) ==> (isext(extendedSpatialIds1[k]) ==> zoomsok(extendedSpatialIds1[k]))
+//@   requires forall k :: 0 <= k && k < len(extendedSpatialIds2) ==> (isext(extendedSpatialIds2[k]) ==> zoomsok(extendedSpatialIds2[k]))
+//@   ensures [false-on-error] r1 != nil ==> r0 == false
+//@   ensures [empty] len(extendedSpatialIds1) == 0 || len(extendedSpatialIds2) == 0 ==> r0 == false && r1 == nil
+//@   ensures [disjunction] (forall k :: 0 <= k && k < len(extendedSpatialIds1) ==> validext(extendedSpatialIds1[k])) && (forall k :: 0 <= k && k < len(extendedSpatialIds2) ==> validext(extendedSpatialIds2[k])) ==> r1 == nil && (r0 <==> (exists i, j :: 0 <= i && i < len(extendedSpatialIds1) && 0 <= j && j < len(extendedSpatialIds2) && ovrel(extendedSpatialIds1[i], extendedSpatialIds2[j])))
+//@   loop 0 invariant (forall k :: 0 <= k && k < len(extendedSpatialIds1) ==> validext(extendedSpatialIds1[k])) && (forall k :: 0 <= k && k < len(extendedSpatialIds2) ==> validext(extendedSpatialIds2[k])) ==> (forall i, j :: 0 <= i && i < $i && 0 <= j && j < len(extendedSpatialIds2) ==> !ovrel(extendedSpatialIds1[i], extendedSpatialIds2[j]))
+//@   loop 1 invariant (forall k :: 0 <= k && k < len(extendedSpatialIds1) ==> validext(extendedSpatialIds1[k])) && (forall k :: 0 <= k && k < len(extendedSpatialIds2) ==> validext(extendedSpatialIds2[k])) ==> (forall i, j :: 0 <= i && i < $i0 - 1 && 0 <= j && j < len(extendedSpatialIds2) ==> !ovrel(extendedSpatialIds1[i], extendedSpatialIds2[j])) && (forall j :: 0 <= j && j < $i ==> !ovrel(extendedSpatialIds1[$i0 - 1], extendedSpatialIds2[j]))
+//@ end
+
+//@ lemma C05_overlap_relation_symmetric_and_reflexive
+//@   props C05
+//@   var a str
+//@   var b str
+//@   assume validext(a) && validext(b)
+//@   assert [symmetric] ovrel(a, b) <==> ovrel(b, a)
+//@   assert [reflexive] ovrel(a, a)
+//@ end
